@@ -151,7 +151,9 @@ func (l *Loaded) keyLayoutEnv(fn *ssa.Function, env *klEnv, depth int) *keyLayou
 		// []byte(string field)
 		if cv, ok := v.(*ssa.Convert); ok {
 			if b, ok := cv.X.Type().Underlying().(*types.Basic); ok && b.Kind() == types.String {
-				f := lastField(Sym(cv.X))
+				cx, _ := env.resolve(cv.X)
+				f := lastField(Sym(cx))
+				s = Sym(cx)
 				if f == "Owner" || f == "Provider" || f == "Auditor" {
 					return seg{kind: "addrstr", field: f, src: s}
 				}
@@ -233,6 +235,8 @@ func (l *Loaded) keyLayoutEnv(fn *ssa.Function, env *klEnv, depth int) *keyLayou
 				}
 			case full == "encoding/binary.Write":
 				v := stripConv(args[2])
+				v, _ = env.resolve(v)
+				v = stripConv(v)
 				w := intWidth(v.Type())
 				if w == 0 {
 					fail("binary.Write of non-fixed-width value %s", Sym(v))
